@@ -269,6 +269,7 @@ func (self *Metadata) symlinks() []string {
 		if info, err := os.Lstat(self.finalPath); err == nil && info.Mode()&os.ModeSymlink != 0 {
 			symlinks = []string{self.finalPath}
 		}
+		util.VerifPoint("meta:uniquify:symlink", self.fqname)
 		if self.finalFilePath != path.Join(self.finalPath, "files") {
 			if info, err := os.Lstat(self.finalFilePath); err == nil && info.Mode()&os.ModeSymlink != 0 {
 				symlinks = append(symlinks, self.finalFilePath)
@@ -367,6 +368,7 @@ func (self *Metadata) uniquify() error {
 		return err
 	}
 	self.path = p
+	util.VerifPoint("meta:uniquify:mkdir", self.fqname)
 	filesPath := path.Join(p, "files")
 	if err := util.Mkdir(filesPath); err != nil {
 		self.writeErrorNoLock("Could not create file directory for ", err)
@@ -381,6 +383,7 @@ func (self *Metadata) uniquify() error {
 		return err
 	}
 
+	util.VerifPoint("meta:uniquify:dirs", self.fqname)
 	if self.discoverUniquifier() != self.uniquifier {
 		if relPath, err := filepath.Rel(filepath.Dir(self.finalPath), p); err != nil {
 			msg := fmt.Sprintf(
@@ -435,6 +438,7 @@ func (self *Metadata) removeAll(includeMeta bool) error {
 	}
 	self.notRunningSince = time.Time{}
 	self.lastRefresh = time.Time{}
+	util.VerifPoint("meta:removeAll", self.fqname)
 	if err := os.RemoveAll(self.curFilesPath); err != nil {
 		return err
 	}
@@ -451,6 +455,7 @@ func (self *Metadata) removeAll(includeMeta bool) error {
 	}
 	// Remove final directories iff they're symlinks or empty.  If a
 	// successful run wrote to it then we don't want to delete it.
+	util.VerifPoint("meta:removeAll:links", self.fqname)
 	if self.finalFilePath != self.curFilesPath {
 		os.Remove(self.finalFilePath)
 	}
@@ -703,6 +708,7 @@ func (self *Metadata) WriteRaw(name MetadataFileName, text string) error {
 
 // Writes the given raw data into the given metadata file.
 func (self *Metadata) WriteRawBytes(name MetadataFileName, text []byte) error {
+	util.VerifPoint("meta:write:"+string(name), self.fqname)
 	err := os.WriteFile(self.MetadataFilePath(name), text, 0644)
 	self.cache(name, self.uniquifier)
 	if err != nil {
@@ -766,6 +772,7 @@ func (self *Metadata) WriteTime(name MetadataFileName) error {
 // way that ensures the file is updated atomically and will never be observed
 // in a partially-written form.
 func (self *Metadata) WriteAtomic(name MetadataFileName, object interface{}) error {
+	util.VerifPoint("meta:writeatomic:"+string(name), self.fqname)
 	bytes, err := json.MarshalIndent(object, "", "    ")
 	if err != nil {
 		return err
@@ -783,6 +790,7 @@ func (self *Metadata) WriteAtomic(name MetadataFileName, object interface{}) err
 // or modified (except by the runtime itself), the change won't be "noticed"
 // until the journal is updated.
 func (self *Metadata) UpdateJournal(name MetadataFileName) error {
+	util.VerifPoint("meta:journal:"+string(name), self.fqname)
 	fname := self.journalPath + "." + self.journalPrefix + string(name)
 	if err := os.WriteFile(fname,
 		[]byte(util.Timestamp()), 0644); err != nil && !os.IsExist(err) {
@@ -792,6 +800,7 @@ func (self *Metadata) UpdateJournal(name MetadataFileName) error {
 }
 
 func (self *Metadata) remove(name MetadataFileName) error {
+	util.VerifPoint("meta:remove:"+string(name), self.fqname)
 	self.uncache(name)
 	err := os.Remove(self.MetadataFilePath(name))
 	if os.IsNotExist(err) {
